@@ -6,4 +6,5 @@ From Coq Require Import ZArith NArith.
 From Adm Require Import Extract.Driver.
 Extraction Language OCaml.
 Set Extraction Optimize.
-Extraction "model.ml" Z.add N.add Nat.add drv_id_parse drv_id_format.
+Extraction "model.ml" Z.add N.add Nat.add drv_id_parse drv_id_format
+  drv_time_parse drv_time_format.
